@@ -1922,6 +1922,15 @@ class NUniqueColumns(Elemwise):
     _defaults = {"axis": 1, "dropna": True}
     operation = M.nunique
 
+    @functools.cached_property
+    def _meta(self):
+        # pandas returns float64 for a row-wise nunique of a frame without
+        # rows (an empty ``apply``), but int64 for any frame that has rows
+        args = [
+            meta_nonempty(op._meta) if isinstance(op, Expr) else op for op in self._args
+        ]
+        return make_meta(self.operation(*args, **self._kwargs))
+
 
 class Sqrt(Elemwise):
     _parameters = ["frame"]
